@@ -36,6 +36,71 @@ def out(s):
         die(5)
 
 
+# ---- a tiny decision procedure for the propositional fragment (and / or / not / => / = / xor / ite / let)
+def tokens(text):
+    return text.replace("(", " ( ").replace(")", " ) ").split()
+
+
+def parse(toks, pos=0):
+    if toks[pos] == "(":
+        lst, pos = [], pos + 1
+        while toks[pos] != ")":
+            x, pos = parse(toks, pos)
+            lst.append(x)
+        return lst, pos + 1
+    return toks[pos], pos + 1
+
+
+def ev(x, env):
+    if isinstance(x, str):
+        if x == "true":
+            return True
+        if x == "false":
+            return False
+        return env[x.strip("|")]
+    op = x[0]
+    if op == "let":
+        env2 = dict(env)
+        for name, val in x[1]:
+            env2[name.strip("|")] = ev(val, env)
+        return ev(x[2], env2)
+    a = [ev(y, env) for y in x[1:]] if op != "ite" else None
+    if op == "and":
+        return all(a)
+    if op == "or":
+        return any(a)
+    if op == "not":
+        return not a[0]
+    if op == "=>":
+        r = a[-1]
+        for v in reversed(a[:-1]):
+            r = (not v) or r
+        return r
+    if op == "=":
+        return all(v == a[0] for v in a)
+    if op == "xor":
+        return a[0] != a[1]
+    if op == "ite":
+        return ev(x[2], env) if ev(x[1], env) else ev(x[3], env)
+    raise ValueError(op)
+
+
+decls, levels, model = [], [[]], {}
+
+
+def decide():
+    import itertools
+    live = [f for lv in levels for f in lv]
+    for vals in itertools.product([True, False], repeat=len(decls)):
+        env = dict(zip(decls, vals))
+        try:
+            if all(ev(f, env) for f in live):
+                return env
+        except Exception:
+            return dict(zip(decls, [True] * len(decls)))      # outside the fragment: answer sat, everything true
+    return None
+
+
 buf = ""
 first = True
 for line in sys.stdin:
@@ -48,13 +113,33 @@ for line in sys.stdin:
     first = False
     if cmd.startswith("(assert") and beh == "crash_assert":
         die(3)
-    if cmd.startswith("(check-sat"):
+    sx = parse(tokens(cmd))[0]
+    if sx[0] in ("declare-fun", "declare-const"):
+        decls.append(sx[1].strip("|"))
+        out("success")
+    elif sx[0] == "assert":
+        levels[-1].append(sx[1])
+        out("success")
+    elif sx[0] == "push":
+        for _ in range(int(sx[1]) if len(sx) > 1 else 1):
+            levels.append([])
+        out("success")
+    elif sx[0] == "pop":
+        for _ in range(int(sx[1]) if len(sx) > 1 else 1):
+            levels.pop()
+        out("success")
+    elif cmd.startswith("(check-sat"):
         if beh == "crash_checksat":
             die(3)
-        out("unknown" if beh == "unknown" else "sat")
+        if beh == "unknown":
+            out("unknown")
+        else:
+            model = decide()
+            out("sat" if model is not None else "unsat")
     elif cmd.startswith("(get-value"):
-        name = re.match(r"\(get-value \((.*)\)\)", cmd).group(1)
-        out("((%s true))" % name)
+        name = re.match(r"\(get-value \((.*)\)\)", cmd).group(1).strip()
+        val = (model or {}).get(name.strip("|"), True)
+        out("((%s %s))" % (name, "true" if val else "false"))
     elif cmd.startswith("(exit"):
         break
     else:
